@@ -29,6 +29,12 @@ import RrModel.Freshness
   response_headers, force_revalidate 0.  A branch outside it ends the run with `Sent.outside`.
   Sequential histories: the only holder of a key's lock is an activation further up the SAME
   stack; waiting for it is a 30 s self-deadlock (`Outcome.selfwait`).
+
+  Every redirect that leads to a re-entry is counted per client request (`redirects++; if
+  redirects > maxRedirects` ⇒ 508 Loop detected) at the uncached, the Found and the writer site
+  alike (and at the reader site, which a sequential history cannot reach) — the repair of
+  findings C18-a / C18-c.  The nesting of activations is therefore bounded by `maxRedirects + 1`
+  (`Props.C18Cache.cached_terminates`); the fuel parameter stays for structural recursion.
 -/
 namespace Model.RedirectCache
 open Go Model Model.Redirect
@@ -70,9 +76,12 @@ structure Cfg where
   origin : Contact → Option OResp
   isRedirect : Nat → Bool
   hasStorage : Bytes → Bool
+  /-- `Facts.maxRedirects` (server.go `const maxRedirects`) -/
+  maxRedirects : Nat
 
 def Cfg.toRedirect (cfg : Cfg) : Redirect.Cfg :=
-  { rules := cfg.rules, origin := fun _ => none, isRedirect := cfg.isRedirect, hasStorage := cfg.hasStorage }
+  { rules := cfg.rules, origin := fun _ => none, isRedirect := cfg.isRedirect, hasStorage := cfg.hasStorage,
+    maxRedirects := cfg.maxRedirects }
 
 /-- `alwaysInclude`: the two headers cachingFunc puts there in this domain -/
 structure Inc where
@@ -90,6 +99,9 @@ structure Act where
   frf : Option Rule := none
   /-- `none` = `alwaysInclude == nil` -/
   inc : Inc := {}
+  /-- `redirects`, the counter in `cachingHandler`'s closure, as this activation finds it: the
+      redirects followed so far for this client request -/
+  hops : Nat := 0
   deriving Repr
 
 /-- what is written to the client -/
@@ -113,7 +125,8 @@ structure Done where
 
 inductive Outcome where
   | done (d : Done)
-  /-- more activations than the fuel: unbounded recursion as far as the harness can tell -/
+  /-- more activations than the fuel: unbounded recursion as far as the harness can tell
+      (`Props.C18Cache.run_not_runaway`: never with fuel > `maxRedirects`) -/
   | runaway (contacts : List Contact)
   /-- the activation waits for a key its own ancestor is writing (30 s, then 503) -/
   | selfwait (contacts : List Contact)
@@ -277,9 +290,12 @@ def run (cfg : Cfg) (now : Int) : Nat → List Bytes → Store → Act → Outco
           if restartRf then
             if urlEquals redir r.url then
               .done { sent := .userError 508 b!"Loop detected", contacts := [rt.contact], store := store }
+            -- redirects++; if redirects > maxRedirects { 508 }
+            else if a.hops + 1 > cfg.maxRedirects then
+              .done { sent := .userError 508 b!"Loop detected", contacts := [rt.contact], store := store }
             else
               let lvl := reenter { r := r, rf := rf, rule := rt.rule, contact := rt.contact } redir
-              (run cfg now n locks store { req := lvl.req, overrideURL := none, frf := rf, inc := a.inc }).prepend rt.contact
+              (run cfg now n locks store { req := lvl.req, overrideURL := none, frf := rf, inc := a.inc, hops := a.hops + 1 }).prepend rt.contact
           else
             .done { sent := .response rt.resp.status rt.resp.body rt.resp.location { a.inc with status := b!"pass" },
                     contacts := [rt.contact], store := store }
@@ -297,10 +313,16 @@ def run (cfg : Cfg) (now : Int) : Nat → List Bytes → Store → Act → Outco
     | .wait => .selfwait []
     | .found e age =>
       if rule.restartOnRedirect ∧ cfg.isRedirect e.status then
-        -- server.go:205-213: nothing is compared with anything; alwaysInclude starts afresh
+        -- server.go:213-226: no URL is compared with any other; the redirect is counted;
+        -- alwaysInclude starts afresh
         match requestWithRedirect r e.redirectedURL with
         | none => .done { sent := .plainError, contacts := [], store := store }
-        | some rr => run cfg now n locks store { req := rr, overrideURL := some rr.url, frf := some rule, inc := {} }
+        | some rr =>
+          -- redirects++; if redirects > maxRedirects { cache.Finish(key); 508 }
+          if a.hops + 1 > cfg.maxRedirects then
+            .done { sent := .userError 508 b!"Loop detected", contacts := [], store := store }
+          else
+            run cfg now n locks store { req := rr, overrideURL := some rr.url, frf := some rule, inc := {}, hops := a.hops + 1 }
       else
         .done { sent := .response e.status e.body (e.header.get b!"Location") { status := hitStatus a.inc, age := some age },
                 contacts := [], store := store }
@@ -330,9 +352,14 @@ def run (cfg : Cfg) (now : Int) : Nat → List Bytes → Store → Act → Outco
             -- cr.Writer.SetRedirectedURL(redirectedUrl): rendered by Close, i.e. after the re-entry
             let entry := entryOf rt.resp (urlString lvl.req.url) now revalidating
             if rfF.restartOnRedirect then
+              -- redirects++; if redirects > maxRedirects { 508 }: the writer is abandoned as on
+              -- the urlEquals branch, nothing is stored for this hop
+              if a.hops + 1 > cfg.maxRedirects then
+                .done { sent := .userError 508 b!"Loop detected", contacts := [rt.contact], store := store }
+              else
               -- SetClientWritesDisabled; cachingFunc(w, rr, rr.URL, alwaysInclude, &rf, false)
               match run cfg now n (ks :: locks) store
-                      { req := lvl.req, overrideURL := some lvl.req.url, frf := some rfF, inc := inc1 } with
+                      { req := lvl.req, overrideURL := some lvl.req.url, frf := some rfF, inc := inc1, hops := a.hops + 1 } with
               | .done d =>
                 -- back from the re-entry: the hop itself goes to the cache, not to the client
                 .done { sent := d.sent, contacts := rt.contact :: d.contacts, store := d.store.put sk entry }
